@@ -100,7 +100,7 @@ def stepOp (d : Drv) (x : Sexp) : Option Drv :=
     pure ((ap d (.unique t k km)).emit1 tok)
   | .list [.atom "rp", t] => do
     let t ← t.nat?
-    let ok := !C13.busy d.s.u && d.s.u.reaperQ.head? == some t
+    let ok := !headUnstarted d.s && d.s.u.reaperQ.head? == some t
     pure ((ap d .reap).emit1 (if ok then "r:ok" else "r:bad"))
   | .list [.atom "eb", t, .atom kind, v] => do
     let t ← t.nat?
